@@ -18,7 +18,7 @@ import impl
 import proggen
 
 ID = "C03"
-PROP_FILES = ["Props/C03.v"]
+PROP_FILES = ["Props/C03.v", "Props/R_permute.v"]  # R_permute: permutation of definitions on the whole-program reference assembler
 RUN_FILES = ["Run/C03Run.v"]
 RULE = ("(A) generated definition/use programs (random DAGs over <=9 names with forward references, planted undefined symbol, "
         "cycle, zero divisor; additive chains of depth 1..300, plain alias chains 'a0 = a1 / ... / aN = 5' (no operator; N in 1,2,30,63,64,65,100,300) and non-linear chains of depth 1..30 in ascending, descending and "
